@@ -55,7 +55,10 @@ def world_cfg(case):
                      "realms": realms, "kind": case.get("app_kind", "basic"),
                      "handler": case.get("handler", "answer")})
     peers = [{"name": "peer1.example", "ip": ["10.1.1.1"]}, {"name": "peer2.example", "ip": ["10.1.1.2"]}]
-    return {"peers": peers, "apps": apps, "sched_seed": case.get("seed", 0),
+    if case.get("sender_dir") == "out":
+        # the node dials the sending peer, which may spell its own identity in another case in its CEA
+        peers[0 if case["sender_host"] == "peer1.example" else 1].update(persistent=True, reconnect_wait=1000)
+    return {"peers": peers, "apps": apps, "sched_seed": case.get("seed", 0), "default_dial": "ok",
             "node_timers": {"idle": 30, "dwa": 4, "cer": 4, "cea": 4, "wakeup": 3}}
 
 
@@ -114,7 +117,8 @@ def build_request(case):
     if "destination_realm" in spec["attrs"]:
         spec["attrs"]["destination_realm"] = {"k": "s", "v": {"t": "OctetString", "j": case["realm"].encode().hex()}}
     if "origin_host" in spec["attrs"]:
-        spec["attrs"]["origin_host"] = {"k": "s", "v": {"t": "OctetString", "j": case["sender_host"].encode().hex()}}
+        who = (case.get("sender_spelling") or case["sender_host"]) if case.get("sender_dir") == "out" else case["sender_host"]
+        spec["attrs"]["origin_host"] = {"k": "s", "v": {"t": "OctetString", "j": who.encode().hex()}}
     obj = c03.build_obj(I, spec)
     obj.header.application_id = case["app_id"]
     obj.header.hop_by_hop_identifier = case.get("hbh", 0x2001)
@@ -161,6 +165,9 @@ def expected(case, k, dmap):
 
 def evaluate(case) -> Result:
     res = Result()
+    if case.get("sender_spelling") in ("UPPER", "Title"):
+        h = case["sender_host"]
+        case = dict(case, sender_spelling=h.upper() if case["sender_spelling"] == "UPPER" else h.title())
     w = W.NodeWorld(world_cfg(case))
     try:
         w.start()
@@ -169,8 +176,18 @@ def evaluate(case) -> Result:
         ids = sorted({a[0] for a in lay["apps"]})
         auth_ids = [a[0] for a in lay["apps"] if a[1] == "auth"]
         acct_ids = [a[0] for a in lay["apps"] if a[1] == "acct"]
-        c1 = w.handshake_in("peer1.example", auth=auth_ids, acct=acct_ids, ip="10.1.1.1", hbh=0x101)
-        c2 = w.handshake_in("peer2.example", auth=auth_ids, acct=acct_ids, ip="10.1.1.2", hbh=0x102)
+        spelled = case["sender_host"]
+        if case.get("sender_dir") == "out":
+            spelled = case.get("sender_spelling") or case["sender_host"]
+            out = w.conns[0]
+            w.answer_cer(out, 2001, auth=tuple(auth_ids), acct=tuple(acct_ids), host=spelled)
+            other = "peer2.example" if case["sender_host"] == "peer1.example" else "peer1.example"
+            oc = w.handshake_in(other, auth=auth_ids, acct=acct_ids, ip="10.1.1.2" if other == "peer2.example" else "10.1.1.1", hbh=0x102)
+            c1, c2 = (out, oc) if case["sender_host"] == "peer1.example" else (oc, out)
+            res.classes.append("sender:outbound" + ("-respelled" if spelled != case["sender_host"] else ""))
+        else:
+            c1 = w.handshake_in("peer1.example", auth=auth_ids, acct=acct_ids, ip="10.1.1.1", hbh=0x101)
+            c2 = w.handshake_in("peer2.example", auth=auth_ids, acct=acct_ids, ip="10.1.1.2", hbh=0x102)
         sender = c1 if case["sender_host"] == "peer1.example" else c2
         n0 = len(sender.refresh())
         noise = case.get("noise", [])
@@ -305,6 +322,17 @@ def shard_main(shard, nshards, tier, scale):
             record(rec, case, res)
         hyp.run_given(full_spec_strategy(k), mbody, 1, derive_seed(PID, "mc", k.__name__), rec=rec)
 
+    for k in classes[shard::nshards]:
+        for layout, sender in ((1, "peer2.example"), (2, "peer2.example"), (1, "peer1.example")):
+            def obody(spec, k=k, layout=layout, sender=sender):
+                lay_ids = [a[0] for a in LAYOUTS[layout]["apps"]]
+                case = {"cls": k.__name__, "spec": spec, "removed": [], "realm": "example", "app_id": lay_ids[0 if layout == 1 else 1],
+                        "sender_host": sender, "layout": layout, "sender_dir": "out", "sender_spelling": "Title"}
+                res = evaluate(case)
+                res.classes.append("outbound-respelled-grid")
+                record(rec, case, res)
+            hyp.run_given(full_spec_strategy(k), obody, 1, derive_seed(PID, "ob", k.__name__, layout, sender), rec=rec)
+
     n = int((6000 if thorough else 400) * scale)
 
     @st.composite
@@ -321,6 +349,8 @@ def shard_main(shard, nshards, tier, scale):
                 "layout": layout, "handler": draw(st.sampled_from(["answer", "answer", "raise"])),
                 "app_kind": draw(st.sampled_from(["basic", "threading"])),
                 "noise": draw(st.lists(st.sampled_from(["DWR-before", "DWR-after", "DWA-after"]), max_size=2, unique=True)),
+                "sender_dir": draw(st.sampled_from(["in", "in", "out"])),
+                "sender_spelling": draw(st.sampled_from([None, "UPPER", "Title"])),
                 "seed": draw(st.integers(0, 3))}
 
     def rbody(case):
@@ -336,7 +366,7 @@ def run(tier, scale=1.0):
     rec = Recorder(PID)
     for d in hyp.pool_run(shard_main, (tier, scale)):
         rec.merge(d)
-    required = {"layout:mixed-case-realm": 1, "expect:deliver": 1, "expect:5005": 1, "expect:3003": 1, "expect:3007": 1, "handler:raise": 1,
+    required = {"sender:outbound-respelled": 1, "layout:mixed-case-realm": 1, "expect:deliver": 1, "expect:5005": 1, "expect:3003": 1, "expect:3007": 1, "handler:raise": 1,
                 "layout:same-id-two-peers": 1, "layout:three-apps": 1, "app:threading": 1, "removed:2": 1}
     return finish(rec, tier=tier, level="exploration", rule=RULE, assumptions=ASSUME, t0=t0,
                   required_classes=required,
